@@ -110,6 +110,45 @@ def write_ndjson(path, items):
 _REPLAY_RE = re.compile(r'^<<"(REPLAY|BAD|NOTE|STAT)", (.*)>>$')
 
 
+_WRAP_START_RE = re.compile(r'^<< "(REPLAY|BAD|NOTE|STAT)",\s*$')
+
+
+def _bracket_delta(line):
+    """Net nesting of << >> [ ] ( ) { } on a line of TLC output, ignoring string literals."""
+    d, i, n, instr = 0, 0, len(line), False
+    while i < n:
+        c = line[i]
+        if instr:
+            if c == "\\":
+                i += 1
+            elif c == '"':
+                instr = False
+        elif c == '"':
+            instr = True
+        elif line.startswith("<<", i):
+            d += 1
+            i += 1
+        elif line.startswith(">>", i):
+            d -= 1
+            i += 1
+        elif c in "[({":
+            d += 1
+        elif c in "])}":
+            d -= 1
+        i += 1
+    return d
+
+
+def _unwrap(parts):
+    """Join a wrapped TLC tuple back into the one-line form <<"KIND", a, b>>."""
+    first = parts[0]                       # << "KIND",
+    kind = first[first.index('"') + 1:first.rindex('"')]
+    body = " ".join(parts[1:])
+    if body.endswith(">>"):
+        body = body[:-2].rstrip()
+    return '<<"%s", %s>>' % (kind, body)
+
+
 def _tla_unquote(s):
     """A TLC-printed string literal "..." -> python str (TLC escapes \\ and \" only)."""
     assert s.startswith('"') and s.endswith('"'), s[:80]
@@ -184,6 +223,7 @@ def run_tlc(module, cfg=None, workdir=None, workers=8, env_extra=None, timeout=3
     res = TlcResult()
     t0 = time.time()
     tail = []
+    wrapped, depth = None, 0
     out_f = open(keep_stdout, "w") if keep_stdout else None
     p = subprocess.Popen(cmd, cwd=workdir, env=env, stdout=subprocess.PIPE, stderr=subprocess.STDOUT, text=True,
                          errors="replace")
@@ -192,6 +232,18 @@ def run_tlc(module, cfg=None, workdir=None, workers=8, env_extra=None, timeout=3
             line = line.rstrip("\n")
             if out_f:
                 out_f.write(line + "\n")
+            # TLC wraps values wider than 80 columns over several lines: << "KIND",\n   field,\n   field >>
+            if wrapped is not None:
+                wrapped.append(line.strip())
+                depth += _bracket_delta(line)
+                if depth > 0:
+                    continue
+                line = _unwrap(wrapped)
+                wrapped = None
+            elif _WRAP_START_RE.match(line):
+                wrapped = [line.strip()]
+                depth = _bracket_delta(line)
+                continue
             m = _REPLAY_RE.match(line)
             if m:
                 kind, payload = m.group(1), m.group(2)
